@@ -64,6 +64,24 @@ CHECKS = {
         ref="DESIGN.md section 6 C13",
         note="Nondeterminism is sampled over k executions, not enumerated: schedules inside the Go runtime are not controlled. Services answer the same way by construction (faults are tied to request identity, not batch position).",
         technique="TLA+ contract (first observation = every observation) evaluated by TLC on recorded repeated executions (trace validation)"),
+    "C03": dict(
+        category="model_checking",
+        text="Merge.tla defines Merged(S), the union of the declarations of a set of service schemas (types by name, fields with result type and arguments incl. defaults, enum values, union members, interfaces, input fields, directives, the node entry point), order free by construction (TLC checks Merged(pi(S)) = Merged(S) for all permutations on every enumerated set). The real merger (ExtendMergerFunc, SanitizeNodeMergerFunc) is run on every permutation of (a) every set of 2 services over the grammar of MergeGen.tla and every set of 3 services over its reduced grammar, enumerated by TLC (a seeded slice in the quick tier), and (b) seeded generated sets of 1-4 services covering all type kinds; TLC validates the projected result schema against Merged(S) (MergeTrace, Enforce=C03).",
+        ref="DESIGN.md section 6 C03",
+        note="Signatures are compared as gqlparser renders them; descriptions and deprecations are not part of the comparison; the result is valid by construction of the merger (it is re-parsed by gqlparser) and that is recorded.",
+        technique="TLA+ declarative union (Merge.tla) + TLC enumeration of schema sets (MergeGen.tla) replayed on the real merger in all orders + TLC trace validation of the results"),
+    "C04": dict(
+        category="model_checking",
+        text="Merge!RoutesOK(S, r): every root field routed to the one declaring service, every non-id field of every object type of Merged(S) routed to a service declaring it on that type, no phantom routes, Node flag iff the type implements Node, routed services = contributing services. TLC evaluates it on the TypeURLMap returned by the real merger for every mergeable set (TLC-enumerated and generated) in every order of the service list.",
+        ref="DESIGN.md section 6 C04",
+        note="That the planner finds a route for every field of the merged schema is exercised indirectly by C01/C02 (generated operations over the same routing tables), not enumerated per field here.",
+        technique="TLA+ contract (RoutesOK) evaluated by TLC on routing tables recorded from the real merger, sets enumerated by TLC and generated"),
+    "C05": dict(
+        category="model_checking",
+        text="Merge!Mergeable(S) states the conflicts of the property (root field twice, one name two kinds, Node in one service only, Node-type field twice, shared plain/input type neither identical nor disjoint, shared field with different type/arguments, union with different members). For EVERY permutation of the service list the real merger (both merger functions and NewGateway) must accept iff Mergeable and never panic (MergeTrace, Enforce=C05). Sets: all sets over MergeGen.tla's grammar enumerated by TLC (2 services rich, 3 services reduced; each conflict kind arises naturally) and generated mergeable sets with 0-2 conflict-introducing edits (8 kinds).",
+        ref="DESIGN.md section 6 C05",
+        note="Interfaces are declared by one service in the generated sets; directive-definition conflicts are not part of the property.",
+        technique="TLA+ declarative conflict definition + TLC enumeration of schema sets replayed on the real merger in all orders + TLC trace validation"),
 }
 
 PENDING = "not claimed yet: specification and binding for this property are still being built (DESIGN.md section 10 build order)"
